@@ -963,6 +963,11 @@ func Run(c *evid.Ctx) {
 	report("LinkedList", seqx.BFS(llSys(lldepth)))
 	runSorting(c, sl, slc)
 	runFiltering(c, fl)
+	tr := 3
+	if c.Thorough() {
+		tr = 4
+	}
+	runTables(c, tr)
 	c.Cov["traces_validated_against_impl"] = c.Counter("transitions")
 	c.Cov["rule"] = "sequence part: states = distinct canonical heaps (backing array incl. stale slots, size), transitions = real calls compared with a slice model; sorting part: every array up to the stated length over a 4-value alphabet with duplicates, both directions, with every child list over a 3-value alphabet of every list type; non-trivial = at least two elements"
 	c.Assume("NaN is excluded from float alphabets (the property says NaN-free floats); float-to-int conversions of out-of-range values are not in the alphabet (undefined in Go)")
